@@ -457,6 +457,50 @@ impl Prop for C18 {
 					if bad {
 						break;
 					}
+					// the other ways a caller's types may ask for the same message: alternative hints, fields it has no
+					// use for (ignored), nothing at all. What is kept must be what was written and the decoder must stop
+					// where the message ends, on both input paths.
+					let seed = shape ^ msg.len() as u64;
+					for (ti, target) in [Target::AltHints(seed), Target::Masked(seed), Target::Masked(!seed), Target::Ignored, Target::Blind].into_iter().enumerate() {
+						let s = tls::decode_single_object_slice(&schema, &env, &scn.schema, &with_trailer, target, limits);
+						let (r, st) = tls::decode_single_object_reader(&schema, &env, &scn.schema, &with_trailer, target, limits, &few_plans(ti + msg.len())[0]);
+						out.evals += 2;
+						out.steps += st.calls;
+						out.count("intact_message_under_other_targets", 1);
+						if matches!(target, Target::AltHints(_)) {
+							// a hint that does not fit the value (u64 for a negative long ...) is legitimately refused: the
+							// two input paths must agree, whatever the answer
+							if s.res != r.res || (s.res.is_ok() && (s.consumed != msg.len() || r.consumed != msg.len())) {
+								out.fail("C18:intact:alt-hints-target:slice-and-reader-disagree", format!("slice {:?} ({} bytes), reader {:?} ({} bytes), message of {}", s.res, s.consumed, r.res, r.consumed, msg.len()));
+								bad = true;
+								break;
+							}
+							continue;
+						}
+						for (path, o) in [("slice", &s), ("reader", &r)] {
+							let ok = match (&o.res, target) {
+								(Ok(v), Target::Masked(_)) => crate::val::eq_modulo_mask(v, &scn.val),
+								(Ok(_), _) => true,
+								(Err(_), _) => false,
+							};
+							if !ok {
+								out.fail(format!("C18:intact:{}-target:{path}", target.label()), format!("{:?}", o.res));
+								bad = true;
+								break;
+							}
+							if o.consumed != msg.len() {
+								out.fail(format!("C18:intact:{}-target:{path}-consumed", target.label()), format!("consumed {} of a {}-byte message", o.consumed, msg.len()));
+								bad = true;
+								break;
+							}
+						}
+						if bad {
+							break;
+						}
+					}
+					if bad {
+						break;
+					}
 				}
 				Check::Truncate { len } => {
 					let cut = &msg[..(*len).min(msg.len())];
